@@ -565,8 +565,14 @@ void do_op(string op) {
       o = sizeof(a) > 4 ? ob_of(a[4]) : this_object();
       if (a[3] == "write" || a[3] == "printf") o = this_player();
       if (a[3] == "receive") o = this_object();
-      rec("OUT " + (o ? o->me() : "0") + " " + a[1] + " " + a[2] + " " + a[3]);
+      if (a[3] != "shout") rec("OUT " + (o ? o->me() : "0") + " " + a[1] + " " + a[2] + " " + a[3]);
+      if (a[3] == "shout") {
+        // one message to every other user: one OUT record per recipient, written before the efun runs
+        object u;
+        foreach (u in users()) if (u != this_player() && environment(u)) rec("OUT " + u->me() + " " + a[1] + " " + a[2] + " shout");   // shout reaches listeners that are somewhere
+      }
       switch (a[3]) {
+      case "shout": shout(m); break;
       case "write": write(m); break;
       case "tell": tell_object(o, m); break;
       case "printf": printf("%s", m); break;
